@@ -363,7 +363,7 @@ func (e *env) repair() {
 		}
 	}
 	// extra retention policies / log streams and measurements inside the kept databases
-	wantRP := map[string]bool{"autogen": true, stream1: true}
+	wantRP := map[string]bool{"autogen": true, stream1: true, crossRP: true}
 	wantMst := map[string]bool{mst1: true, stream1: true}
 	for db := range keepDB {
 		if db == "_internal" {
